@@ -94,7 +94,6 @@ macro_rules! metric_ops {
                 ("normalize_to", [$V(x), N(m)]) => $V(x.normalize_to(*m)),
                 ("distance", [$V(x), $V(y)]) => N(x.distance(*y)),
                 ("angle", [$V(x), $V(y)]) => ARad(x.angle(*y)),
-                ("is_perpendicular", [$V(x), $V(y)]) => B(x.is_perpendicular(*y)),
                 _ => return None,
             })
         }
